@@ -349,8 +349,15 @@ func urlCase(r *mon.Run, l *urlLocal, raw string) {
 			return
 		}
 		var jb urlutil.URL
+		jsOrig := string(js)
 		if variant == 0 {
 			jerr = json.Unmarshal(js, &jb)
+			// the caller's JSON bytes are input only: unchanged afterwards, and decodable again
+			var again urlutil.URL
+			if jerr2 := json.Unmarshal(js, &again); string(js) != jsOrig || (jerr == nil && (jerr2 != nil || again.String() != jb.String())) {
+				r.Violation("URL.json-input:"+mon.Q(raw), fmt.Sprintf("URL %s: json.Unmarshal changed its input %s into %s (second decode of the same bytes: %q, err=%v)", mon.Q(raw), mon.Q(jsOrig), mon.Q(string(js)), again.String(), jerr2), map[string]any{"codec": "url", "raw": raw})
+				return
+			}
 		} else {
 			var holder struct {
 				U *urlutil.URL `json:"u"`
